@@ -204,6 +204,13 @@ def task_format(args):
     kw = {}
     if "preserve" in opts and "preserve" in getattr(getattr(rule, "_fix_func", rule), "__code__").co_varnames:
         kw["preserve"] = opts["preserve"]
+    import inspect
+
+    try:
+        if "root_is_static" in inspect.signature(rule).parameters:
+            kw["root_is_static"] = True
+    except (TypeError, ValueError):
+        pass
     return _guarded(lambda: rule(src, **kw), 30)
 
 
